@@ -30,6 +30,9 @@ const MnemInfo *find_mnem(const std::string &s) {
 }
 const char *KNOWN_SUFFIX[] = {"V", "mV", "kOHM", "OHM", "Hz", "s", "ms", "A", "uV", "MHZ"};
 const char *UNKNOWN_SUFFIX[] = {"xyz", "FOO", "Vx", "qq"};
+// known exactly when the context was given the application's own unit table (knob custom_units), in any letter case
+const char *CUSTOM_SUFFIX[] = {"mVpp", "MVPP", "mvpp", "Vrms", "VRMS", "dBc", "DBC", "dbc"};
+bool g_custom_units = false;
 
 // ---- independent validators: a plan whose literal does not belong to the class it is labelled with is inert
 bool is_dec(const std::string &s, bool *is_int = nullptr) {
@@ -181,6 +184,8 @@ void expect_cell(int reader, const Item &it, int &code, int &alt) {
                 split_decsuf(it.lit, num, suf);
                 bool known = false;
                 for (auto k : KNOWN_SUFFIX) known |= suf == k;
+                if (g_custom_units)
+                    for (auto k : CUSTOM_SUFFIX) known |= suf == k;
                 code = known ? 0 : -131;
             } else if (it.cls == C_MNEM) {
                 const MnemInfo *m = find_mnem(it.lit);
@@ -548,6 +553,9 @@ void execute_c05(const Plan &plan, Verdict &v) {
     WorldCfg cfg;
     cfg.queue = (int) clampl(plan.k("queue", 8), 1, 16);
     cfg.inbuf = (int) clampl(plan.k("inbuf", 1024), 256, 120000);
+    cfg.custom_units = plan.k("custom_units", 0) != 0;
+    g_custom_units = cfg.custom_units;
+    if (cfg.custom_units) COUNT("deployment_with_its_own_unit_table");
     World w(cfg);
     PRun run{w, v, {}, {}, false};
     // ---- decode the plan
@@ -643,6 +651,7 @@ void execute_c05(const Plan &plan, Verdict &v) {
                     bool listed = false;
                     for (auto s : KNOWN_SUFFIX) listed |= b == s;
                     for (auto s : UNKNOWN_SUFFIX) listed |= b == s;
+                    for (auto s : CUSTOM_SUFFIX) listed |= b == s;
                     ok = listed;
                 }
                 if (!ok) pu.valid = false;
@@ -893,7 +902,8 @@ std::string gen_lit(Rng &r, int cls, bool avoid_dot) {
             static const char *nums[] = {"10", "1.5", "-3", "2e3", "0.25"};
             std::string s = nums[r.below(5)];
             if (r.chance(1, 2)) s += " ";
-            if (r.chance(3, 4)) s += KNOWN_SUFFIX[r.below(sizeof KNOWN_SUFFIX / sizeof KNOWN_SUFFIX[0])];
+            if (r.chance(1, 6)) s += CUSTOM_SUFFIX[r.below(sizeof CUSTOM_SUFFIX / sizeof CUSTOM_SUFFIX[0])];
+            else if (r.chance(3, 4)) s += KNOWN_SUFFIX[r.below(sizeof KNOWN_SUFFIX / sizeof KNOWN_SUFFIX[0])];
             else s += UNKNOWN_SUFFIX[r.below(sizeof UNKNOWN_SUFFIX / sizeof UNKNOWN_SUFFIX[0])];
             return s;
         }
@@ -923,6 +933,7 @@ void generate_c05(Rng &r, const GenOpts &g, Plan &p) {
     bool avoid_trailing = g.avoids("trailing_comma");
     bool avoid_number_type = g.avoids("number_wrong_type");
     p.knob["queue"] = r.range(1, 8);
+    if (r.chance(1, 3)) p.knob["custom_units"] = 1;
     if (r.chance(1, 3000)) {
         // one unit with a block parameter beyond 16-bit lengths
         long blen = r.chance(1, 2) ? 65536 + r.range(-2, 30) : r.range(40000, 90000);
